@@ -146,7 +146,14 @@ def multi_case(rnd):
         g.shadow.makedirs(d, recreate=True)
     g.shadow.writebytes("shared", b"s")
     g.shadow.writebytes("a/f0", b"0")
-    return prios, write, g.history(rnd.randint(3, 9))
+    hist = g.history(rnd.randint(3, 9))
+    # systematic: every writing way of reaching a file that may live in a non-write member
+    target = rnd.choice(["shared", "a/f0", "top0", "top1", "a/f1", "c/f2"])
+    how = rnd.choice([("openwrite", target, m, b"W") for m in ("r+", "r+b", "w", "a", "a+", "w+", "x")] +
+                     [("writebytes", target, b"W"), ("appendbytes", target, b"W"), ("touch", target),
+                      ("create", target, True), ("setinfo", target, 3), ("remove", target), ("makedir", "a/newd", False)])
+    hist.insert(rnd.randint(0, len(hist)), how)
+    return prios, write, hist
 
 
 READS = ("getinfo", "readbytes", "exists", "isdir", "isfile", "getsize", "gettype", "openread")
